@@ -89,6 +89,12 @@ def handleSearch (j : Json) : Except String Json := do
   else
     return Json.mkObj [("outcome", toJson (Search.run ds))]
 
+def handleDotenv (j : Json) : Except String Json := do
+  let c : Dotenv.Cfg ← fromJson? (← j.getObjVal? "cfg")
+  let files : List String ← fromJson? (← j.getObjVal? "pathFiles")
+  let anc : List (List String) ← fromJson? (← j.getObjVal? "ancestors")
+  return Json.mkObj [("res", toJson (Dotenv.load c ⟨fun p => files.contains p, anc⟩))]
+
 def handle (line : String) : Json :=
   match Json.parse line with
   | .error e => Json.mkObj [("fatal", s!"parse: {e}")]
@@ -103,6 +109,7 @@ def handle (line : String) : Json :=
       | "childenv" => handleChildEnv j
       | "workdir" => handleWorkdir j
       | "search" => handleSearch j
+      | "dotenv" => handleDotenv j
       | "shsplit" => handleShSplit j
       | _ => throw s!"unknown op {op}"
     match r with
